@@ -367,8 +367,8 @@ def classify(part, case, v):
 
 
 PARTS = [
-    Part("ber", e_ber, s_ber(), quick=250, thorough=2000, shards=16, quick_shards=2, rule="ook/ppm theory_BER vs independent evaluation"),
-    Part("estimators", e_est, s_est(), quick=250, thorough=2000, shards=16, quick_shards=2, rule="estimator modes, THRESHOLD_EST, optimum_threshold"),
-    Part("receiver", e_rx, s_rx(), quick=500, thorough=4000, shards=16, quick_shards=4, rule="receiver model: levels, p_ase, variances, BER integral, monotonicity"),
-    Part("devices", e_dev, s_dev(), quick=12, thorough=60, shards=8, quick_shards=2, shrink=False, rule="PD / EDFA measured noise powers vs the formulas"),
+    Part("ber", e_ber, s_ber(), quick=250, thorough=3000, shards=16, quick_shards=2, rule="ook/ppm theory_BER vs independent evaluation"),
+    Part("estimators", e_est, s_est(), quick=250, thorough=3000, shards=16, quick_shards=2, rule="estimator modes, THRESHOLD_EST, optimum_threshold"),
+    Part("receiver", e_rx, s_rx(), quick=500, thorough=6000, shards=16, quick_shards=4, rule="receiver model: levels, p_ase, variances, BER integral, monotonicity"),
+    Part("devices", e_dev, s_dev(), quick=12, thorough=90, shards=8, quick_shards=2, shrink=False, rule="PD / EDFA measured noise powers vs the formulas"),
 ]
